@@ -19,16 +19,16 @@ from concurrent.futures import ThreadPoolExecutor
 from harness import colang2, progs2, tlc, v2corpus
 
 SPEC_DIR = "/verif/specs/colang2"
-FRAGMENT_FEATURES = {"when", "if", "while", "groups", "return", "abort", "vars", "start", "actions", "refs", "activate", "priority", "loop", "params", "endflow", "globals"}
+FRAGMENT_FEATURES = {"when", "if", "while", "groups", "return", "abort", "vars", "start", "actions", "refs", "activate", "priority", "loop", "params", "endflow", "globals", "label"}
 INVARIANTS = ("QueueEmpty", "Parked", "IndexIsScan", "DoneNoHeads",      # C09
               "L1S", "L2S",                                                # C06 (keeper, action life-cycle monitor)
               "C05S",                                                      # C05 (every conflict resolution of the call: winner not beaten, identical co-win, rest stopped)
               "NoFuelOut",                                                 # C10 (no recursion budget exhausted)
               "AgeInvisible", "NoDangling",                                # C11 (discarding old finished instances changes nothing)
               "ScopeActionsExist")                                              # C11 (discarding old finished instances changes nothing)
-PROPERTIES = ("L2bS", "L2cS",                                              # C06 (stop-on-end, shared actions)
+PROPERTIES = ("L2bS", "L2cS", "L3S",                                              # C06 (stop-on-end, shared actions)
               "EventBound")                                                # C10 (internal events per call linear in program size x instances)
-SERVES = {"QueueEmpty": "C09", "Parked": "C09", "IndexIsScan": "C09", "DoneNoHeads": "C09", "L1S": "C06", "L2S": "C06", "L2bS": "C06", "L2cS": "C06",
+SERVES = {"QueueEmpty": "C09", "Parked": "C09", "IndexIsScan": "C09", "DoneNoHeads": "C09", "L1S": "C06", "L2S": "C06", "L2bS": "C06", "L2cS": "C06", "L3S": "C06",
           "C05S": "C05", "NoFuelOut": "C10", "EventBound": "C10", "AgeInvisible": "C11", "NoDangling": "C11", "ScopeActionsExist": "C09"}
 
 
@@ -41,6 +41,9 @@ DIRECTED = [
     "flow f\n  match E1()\n  send Out1()\n\nflow g\n  match E2()\n  abort\n\nflow main\n  while True\n    when f\n      send Out2()\n    or when g\n      send Out3()\n    else\n      send Out1()\n    match E3()\n",
     "flow a\n  start A1Action(x=1) as $r\n  match E1()\n  send Out1()\n\nflow b\n  start A1Action(x=1)\n  match E2()\n\nflow main\n  start a\n  start b\n  match E3()\n  await a\n  match Never()\n",
     "flow z\n  match E1()\n  start_new_flow_instance:\n  match E2()\n  send Out1()\n\nflow main\n  activate z\n  match E3()\n  send Out2()\n  match Never()\n",
+    # the restart label reached before the flow has started (the early restart is refused: the instance restarts when it ends), finishing / failing
+    "flow z\n  send Out1()\n  start_new_flow_instance:\n  match E1()\n\nflow main\n  activate z\n  match E3()\n  send Out2()\n  match Never()\n",
+    "flow z\n  start A1Action(x=1)\n  start_new_flow_instance:\n  match E1()\n  abort\n\nflow main\n  activate z\n  match E3()\n  send Out2()\n  match Never()\n",
     # an action that lives in the scope of an or-group: stopped when the group is left, its Started may still arrive later
     "flow f\n  match E1()\n\nflow o\n  await f or A1Action(x=1)\n  match E2()\n  send Out1()\n\nflow main\n  start o\n  match E3()\n  match Never()\n",
     "flow o\n  when A1Action(x=1)\n    send Out1()\n  or when E1()\n    send Out2()\n  match E2()\n\nflow main\n  activate o\n  match E3()\n  match Never()\n",
@@ -111,7 +114,8 @@ def explore(ctx, nprog, maxhist, maxpick, seed_offset=0, counter=None, maxtick=1
         deep = i < len(DIRECTED)
         cfg = ("CONSTANTS MaxHist = %d\nMaxPick = %d\nMaxTick = %d\nSPECIFICATION Spec\nVIEW SView\nINVARIANT EmitState\n" % (
             maxhist + (1 if deep else 0), maxpick, maxtick + (1 if deep else 0))
-               + "".join("INVARIANT %s\n" % x for x in INVARIANTS) + "".join("PROPERTY %s\n" % x for x in PROPERTIES))
+               # (the action life-cycle monitor L2S speaks about Stops the interpreter sends on its own: not checked for programs that send Stop themselves)
+               + "".join("INVARIANT %s\n" % x for x in INVARIANTS if not (x == "L2S" and ".Stop()" in src)) + "".join("PROPERTY %s\n" % x for x in PROPERTIES))
         return tlc.run("MC_ColangSM.tla", cfg, wd, spec_dirs=[SPEC_DIR], env={"PROG_FILE": pf}, workers=1, timeout=1800, expect_fail=True)
 
     with ThreadPoolExecutor(16) as ex:
@@ -183,6 +187,10 @@ def _replay_program(k):
                 if ai > 0:
                     ev = dict(alphabet[ai - 1])
                 else:
+                    if act > len(created):
+                        # the specification's history feeds an event of an action the code never created: the replay ends here (drift);
+                        # what was recorded up to this point is still judged
+                        return s, steps, "history not executable: the interpreter never created action #%d" % act, outs
                     uid = created[act - 1][0]
                     ev = {"type": created[act - 1][1] + ("Started" if ai == -1 else "Finished"), "action_uid": uid}
                 if counter is not None:
@@ -211,6 +219,8 @@ def _replay_program(k):
             if err is not None:
                 out["drift"] += 1
                 out["drift_samples"].append({"program": src, "hist": p["hist"], "error": err})
+                if len(steps) > 1:
+                    out["traces"].append({"steps": steps, "origin": "colangsm:%d" % i, "source": src})
                 continue
             real = [(f.flow_id, f.status.name, [(h.position, h.status.name) for h in f.heads.values()]) for f in s.flow_states.values()]
             spec = [(f["fid"], f["status"], [(h["pos"], h["status"]) for h in f["heads"]]) for f in p["proj"]["flows"] if f["status"] != "GONE"]
